@@ -1,3 +1,4 @@
+\* behaviour generation (pinned shape, HTTP+HTTPS)
 SPECIFICATION Spec
 CONSTANTS
   Cfg = {"http", "https"}
